@@ -251,3 +251,7 @@ V('C06', 'is-exclusive-faithful-fast-path', 'edb/schema/pointers.py',
                    and not c.get_delegated(schema)
                    for c in ptr.get_constraints(schema).objects(schema))''',
   None)
+
+# round 5: the stored seeded breaks this property's check reports, replayed as variants
+from sa.selftest import VP  # noqa
+VP('C06', 'C06-e1', 'C06.R9', 'trailing-hops')
